@@ -216,7 +216,65 @@ func skeletons(repo string) []skel {
 	out = append(out, runGuards(repo)...)
 	out = append(out, pkgState(repo)...)
 	out = append(out, frameFacts(repo)...)
+	out = append(out, executorFacts(repo)...)
 	sort.Slice(out, func(i, j int) bool { return out[i].name < out[j].name })
+	return out
+}
+
+// executor/contract_executor.go: the gas-limit constants and every condition / assignment of Execute and
+// IntrinsicGas that mentions the gas limit (what bounds the gas evm.Call / Create are given).
+func executorFacts(repo string) []skel {
+	fset := token.NewFileSet()
+	file, err := parser.ParseFile(fset, filepath.Join(repo, "src", "executor", "contract_executor.go"), nil, 0)
+	if err != nil {
+		panic(err)
+	}
+	show := func(n ast.Node) string {
+		var sb strings.Builder
+		printer.Fprint(&sb, fset, n)
+		return strings.Join(strings.Fields(sb.String()), " ")
+	}
+	consts := skel{name: "executor.gasConstants"}
+	for _, d := range file.Decls {
+		if gd, ok := d.(*ast.GenDecl); ok && gd.Tok == token.CONST {
+			for _, sp := range gd.Specs {
+				vs := sp.(*ast.ValueSpec)
+				for i, n := range vs.Names {
+					if strings.Contains(n.Name, "GasLimit") && i < len(vs.Values) {
+						consts.items = append(consts.items, n.Name+"="+show(vs.Values[i]))
+					}
+				}
+			}
+		}
+	}
+	out := []skel{consts}
+	for _, d := range file.Decls {
+		fd, ok := d.(*ast.FuncDecl)
+		if !ok || fd.Body == nil || (fd.Name.Name != "Execute" && fd.Name.Name != "IntrinsicGas") {
+			continue
+		}
+		sk := skel{name: "executor." + fd.Name.Name}
+		ast.Inspect(fd.Body, func(n ast.Node) bool {
+			switch v := n.(type) {
+			case *ast.IfStmt:
+				c := show(v.Cond)
+				if strings.Contains(c, "gasLimit") || strings.Contains(c, "GasLimit") || strings.Contains(c, "IsProposal") || fd.Name.Name == "IntrinsicGas" {
+					sk.items = append(sk.items, "if "+c)
+				}
+			case *ast.AssignStmt:
+				t := show(v)
+				if strings.Contains(t, "asLimit") || (fd.Name.Name == "IntrinsicGas" && strings.Contains(t, "gas")) {
+					sk.items = append(sk.items, t)
+				}
+			case *ast.ReturnStmt:
+				if fd.Name.Name == "IntrinsicGas" {
+					sk.items = append(sk.items, show(v))
+				}
+			}
+			return true
+		})
+		out = append(out, sk)
+	}
 	return out
 }
 
